@@ -1007,3 +1007,9 @@ func verifPartitionSMF(m Message) (n int) {
 
 //@ func verifPartitionSMF
 //@ ensures [P:C08] n == 1
+
+// ---------------------------------------------------------------- time formats (C20, C11)
+
+//@ func (MetricTicks).Ticks32th
+//@ uses t32of.def
+//@ ensures [P:C20] result == t32of(uint16(q))
